@@ -17,7 +17,7 @@ ASSUMPTIONS = [
     "trades are priced at the exchange's current quotes (the rebalancing path); other prices are outside the quantifier",
     "tolerance 1e-9 x (deposit + gross traded notional + open notional)",
 ]
-REQUIRED = ["C01:nlv-identity", "C01:delta-trade", "C01:delta-quote", "C01:context-pre", "C01:context-post",
+REQUIRED = ["C01:pre-nlv-replayed", "C01:post-nlv-replayed", "C01:nlv-identity", "C01:delta-trade", "C01:delta-quote", "C01:context-pre", "C01:context-post",
             "C01:twin-spot-future"]
 REQUIRED_HITS = ["Broker.transact", "Broker.rebalance"]
 
@@ -26,6 +26,13 @@ def case(ctx, i, tier):
     k = i % 10
     if k == 9:
         bl.twin_spot_future(ctx)
+    elif k == 8:
+        # episode variant: the same identity over whole TradingEnv episodes
+        # (latency, delay, rate path, chains every other time)
+        from vf import epl
+        cfg, outs = epl.ledger_episode(ctx, {"C01"}, chain=(i % 20 == 18), discrete=False)
+        ctx.cat("episode")
+        ctx.nontrivial = len(outs) >= 3
     else:
         bl.history(ctx, {"C01"})
         ctx.nontrivial = ctx.notes.get("nt01", False)
